@@ -179,7 +179,10 @@ fn run(ctx: &mut Ctx) {
             }
         },
     );
-    let progs = corpus(tier == Tier::Thorough);
+    let mut progs = corpus(tier == Tier::Thorough);
+    // plus the C14 instantiation lattice (one function per accepted libfunc instantiation over edge types);
+    // quick: every 4th
+    progs.extend(crate::c14inst::compiled_wrappers(tier).into_iter().enumerate().filter(|(i, _)| tier == Tier::Thorough || i % 4 == 0).map(|(_, x)| x));
     let max_stmts = tier.pick(60, 400);
     for (name, p) in &progs {
         if p.statements.len() > max_stmts {
@@ -232,7 +235,7 @@ fn run(ctx: &mut Ctx) {
 pub static C15: CheckDef = CheckDef {
     id: "C15",
     level: "model_checking",
-    rule: "Model: an independent abstract interpreter (no code shared with annotations.rs/references.rs) over states (statement index, map var -> type), exploring every control-flow path of every function with a worklist; libfunc signatures come from ProgramRegistry. Transfer: args must be live with exactly the parameter types and are consumed; results are added with the branch's types and may not override a live var; a statement reached twice must see the identical map and the same function; every target of a multi-branch invocation must be an alignment point; return needs exactly the declared types and nothing left over. Enumerated: the whole C14(a) single-point mutation space of the corpus programs + the unmutated programs + hand-broken negatives (vacuity guard). Conformance: for EVERY mutant both verdicts are computed; compile==Ok && checker==Err is the violation; states/transitions = abstract states and branch edges explored by the checker; traces_validated_against_impl = accepted programs on which both verdicts were compared; observed_outcomes is the 2x2 agreement matrix.",
+    rule: "[seed programs: the corpus plus the compiling wrapper programs of the C14 instantiation lattice (quick: every 4th)] Model: an independent abstract interpreter (no code shared with annotations.rs/references.rs) over states (statement index, map var -> type), exploring every control-flow path of every function with a worklist; libfunc signatures come from ProgramRegistry. Transfer: args must be live with exactly the parameter types and are consumed; results are added with the branch's types and may not override a live var; a statement reached twice must see the identical map and the same function; every target of a multi-branch invocation must be an alignment point; return needs exactly the declared types and nothing left over. Enumerated: the whole C14(a) single-point mutation space of the corpus programs + the unmutated programs + hand-broken negatives (vacuity guard). Conformance: for EVERY mutant both verdicts are computed; compile==Ok && checker==Err is the violation; states/transitions = abstract states and branch edges explored by the checker; traces_validated_against_impl = accepted programs on which both verdicts were compared; observed_outcomes is the 2x2 agreement matrix.",
     assumptions: &["libfunc signatures as reported by ProgramRegistry are the specification of each operation's types (the property's own observation point)", "dup/drop legality is enforced by the registry's specialization and not re-derived"],
     run,
     stack_mb: 8,
